@@ -258,7 +258,7 @@ CHECKS = {
               "checks that they tile 1..N for every track, sync spacing and target duration of the generator and that every start is a "
               "sync sample; the generated progressive files (video with every sync set, optional audio in another timescale) x segment "
               "durations and fragmented inputs (every split into fragments, one or two truns) x chunk durations are materialised; the "
-              "BUILT examples/segmenter (single-track, -m, -lazy), examples/resegmenter and examples/combine-segs binaries and "
+              "BUILT examples/segmenter (single-track, -m, -lazy, -m -lazy), examples/resegmenter and examples/combine-segs binaries and "
               "MediaSegment.Fragmentify run on them and every output is read by the harness's independent ISO reader: per track the "
               "concatenated sample sequence must equal the input (count, bytes, durations, sync flag, composition offset, decode "
               "time) and every segment of the video track must start with a sync sample."),
